@@ -94,6 +94,16 @@ def pool(R):
                     P.append({"fn": "parse", "s": s, "kw": {"languages": [lg], "settings": {"RELATIVE_BASE": B1, "NORMALIZE": norm, "SKIP_TOKENS": skip}}}); g.append(len(P) - 1)
             groups.append(g)
     pool.groups = groups
+    # region / locale selection: the loader caches locale objects by name, so a call that selects languages with a region must not
+    # change what a later call selecting other languages / the same locale by name gets
+    regional = []
+    for lg, rg in ((["fr", "en"], "AU"), (["fr"], "AU"), (["de"], "AU"), (["en"], "AU"), (["en", "fr"], "CA"), (["es", "pt"], "BR"), (["de", "it"], "CH"), (["ru"], "AU")):
+        for s in ("2 mars 2020", "2 March 2020", "02/03/2020", "2 März 2020", "2 марта 2020"):
+            P.append({"fn": "gdd", "s": s, "kw": {"languages": lg, "region": rg, "settings": {"RELATIVE_BASE": B1}}}); regional.append(len(P) - 1)
+    for loc in ("en-AU", "fr-CA", "en-CA", "pt-BR", "de-CH", "fr", "en", "de"):
+        for s in ("2 mars 2020", "2 March 2020", "02/03/2020", "2 März 2020"):
+            P.append({"fn": "gdd", "s": s, "kw": {"locales": [loc], "settings": {"RELATIVE_BASE": B1}}}); regional.append(len(P) - 1)
+    pool.regional = regional
     # failing calls
     P.append({"fn": "parse", "s": "2015", "kw": {"settings": {"UNKNOWN": 1}}})
     P.append({"fn": "parse", "s": "2015", "kw": {"languages": ["xx"]}})
@@ -125,6 +135,8 @@ def _hist(job):
 def site_of(call, hist):
     """coarse identification of the shared site a divergence belongs to (for the known-findings key)"""
     st = (call.get("kw") or {}).get("settings") or {}
+    if "region" in (call.get("kw") or {}) or any("region" in (h.get("kw") or {}) for h in hist):
+        return "loader pairs region locales with the wrong language / caches them under the wrong name"
     if call["fn"] == "search" or any(h["fn"] == "search" for h in hist):
         return "search writes RELATIVE_BASE / NORMALIZE / language detector on shared objects"
     return "locale lazy attributes built from the first caller's settings"
@@ -165,6 +177,9 @@ def run(ctx):
             prs = [(a, b) for a in g for b in g if a != b and P[a]["kw"]["settings"]["SKIP_TOKENS"] != P[b]["kw"]["settings"]["SKIP_TOKENS"]]
             for a, b in (prs if tier != "quick" else R.sample(prs, 40)):
                 hists.append(([a, b], "0"))
+        rg = getattr(pool, "regional", [])
+        for _ in range(60 if tier == "quick" else 1500):
+            hists.append(([R.choice(rg) for _ in range(R.randint(2, 4))], "0"))
         for a in getattr(pool, "poison", []):
             for b in getattr(pool, "sensitive", []):
                 hists.append(([a, b], "0"))
